@@ -117,4 +117,40 @@ def run(prog):
             errs.append("the accumulator update at line %d does not use the clause product" % muls[0].line)
     out.append(inst("HS", "%s:clause-product-accumulated" % fn.npath, VIOLATION if errs else OK, fn, None,
                     "; ".join(errs) if errs else "accumulator[i] *= clause product, for every clause that reaches the end of its literal loop"))
+    out.append(one_numbering(prog))
     return out
+
+
+def one_numbering(prog):
+    """HS5  one clause numbering.  CnfHasher keeps clause *indices* in three places — the per-state set of unsatisfied
+    clauses, the per-literal occurrence tables pos_lits / neg_lits — and uses them to index weighted_cnf.  All four
+    must number the same list: every `enumerate` in CnfHasher::new (and its closures) runs directly over the
+    constructor's `clauses` argument, and weighted_cnf maps that same list element by element.  An adaptor between
+    the list and `enumerate` (filter, skip, rev, ...) shifts one table against the others."""
+    fn = prog.find1(name="new", self_adt="repr::cnf::CnfHasher", unit="rsdd-lib")
+    fam = [fn] + [g for g in prog.lib_fns if g.npath.startswith(fn.npath + "::{closure")]
+    errs = []
+    n = 0
+
+    def is_base(t):
+        t = strip(t)
+        while mir.is_call(t, "iter") or mir.is_call(t, "into_iter") or mir.is_call(t, "deref"):
+            t = strip(t[2][0])
+        return t == ("param", 1) or (isinstance(t, tuple) and t[0] == "upvar" and t[1] == "clauses")
+    for g in fam:
+        for cs in g.terms.calls:
+            if cs.callee.name == "enumerate":
+                n += 1
+                if not is_base(cs.args[0]):
+                    errs.append("line %d: clause indices are taken from enumerate(%s), not from the clause list itself: they "
+                                "number a different list than the indices in `state` and the positions of weighted_cnf"
+                                % (cs.line, show(cs.args[0])[:60]))
+    r = strip(fn.terms.ret)
+    if r[0] == "agg" and r[4]:
+        w = strip(r[4][0])
+        if not (mir.is_call(w, "collect") and mir.is_call(strip(w[2][0]), "map") and is_base(strip(w[2][0])[2][0])):
+            errs.append("weighted_cnf is built from %s, not element by element from the clause list" % show(w)[:70])
+    if n < 3:
+        raise CheckerError("HS5: expected three enumerations of the clause list in CnfHasher::new, found %d" % n)
+    return inst("HS", "%s:one-clause-numbering" % fn.npath, VIOLATION if errs else OK, fn, None,
+                "; ".join(errs) if errs else "state, pos_lits, neg_lits and weighted_cnf all number the constructor's clause list (%d enumerations)" % n)
